@@ -13,6 +13,7 @@ import Driver.OpsLearnTerm
 import Driver.OpsCnetLearn
 import Driver.OpsF32
 import Driver.OpsRatSample
+import Driver.OpsStruct3
 /-
 Line-protocol driver: one JSON object per input line, one answer line per input line.
 Run with `lake env lean --run Driver/Main.lean < ops.jsonl`.
@@ -84,7 +85,8 @@ def handle (st : St) (j : Json) : Except String (St × String) := do
       handleLearnTerm o j,
       handleCnetLearn o j,
       handleF32 o j,
-      handleRatSample o j ]
+      handleRatSample o j,
+      handleStruct3 st.net o j ]
     match exts.findSome? id with
     | some r => do let a ← r; pure (st, a)
     | none => .error s!"unknown op {o}"
